@@ -156,7 +156,13 @@ type search struct {
 	starts   [][]int64
 	mergeA   []uint8
 	seen     map[key]*entry
-	depthFor func(pw []int64) int
+	depthFor func(pw []int64) int // stated bound on the history length
+	extFor   func(pw []int64) int // >= depthFor: optional extension, explored after everything else if time remains
+
+	extStartBy                             time.Time
+	extNodes, extNodesDone, extTransitions int64
+	extSkipped, extCapped                  bool
+	mergesAtLeaf                           int64
 
 	transitions, merges, mergesChecked, mergesSameConcrete, mergeConflicts, futBuilds int64
 	levelStates, levelTrans                                                           []int64
@@ -279,107 +285,148 @@ func (s *search) run(maxDepth int, alphaAt func(level int) []uint8, deadline tim
 	}
 
 	const chunk = 4096
+	// processChunk expands the nodes of part by every operation of alpha.
+	processChunk := func(part []*entry, alpha []uint8, next *[]*entry) (lt int64) {
+		// phase 1 (parallel): execute every enabled operation from every node
+		tp := time.Now()
+		kids := make([][]child, len(part))
+		core.Par(len(part), func(i int) {
+			e := part[i]
+			pw := s.starts[e.start]
+			base := decode(e.ops)
+			for _, x := range alpha {
+				hist := append(append(make([]opT, 0, len(base)+1), base...), allOps[x])
+				obs, fp, ok, v := c.historyChecks(pw, hist)
+				if !ok && len(v) == 0 {
+					continue // not enabled here
+				}
+				ops := append(append(make([]uint8, 0, len(e.ops)+1), e.ops...), x)
+				ch := child{ops: ops, viols: v}
+				if ok {
+					ch.k, ch.swapped = symCanon(obs)
+					ch.fp = fp.compose(ch.swapped)
+				} else {
+					ch.k = key{0xfe} // panicked: terminal
+				}
+				kids[i] = append(kids[i], ch)
+			}
+		})
+		// phase 2 (sequential, enumeration order): deduplicate
+		s.tPhase[0] += time.Since(tp)
+		tp = time.Now()
+		type work struct{ i, j int }
+		var todo []work
+		for i := range kids {
+			for j := range kids[i] {
+				ch := &kids[i][j]
+				lt++
+				c.report(ch.viols)
+				if ch.k == (key{0xfe}) {
+					continue
+				}
+				if e, dup := s.seen[ch.k]; dup {
+					ch.rep = e
+					s.merges++
+					if len(ch.ops) >= s.extFor(s.starts[part[i].start]) {
+						// a history of maximal length is never expanded, so merging it
+						// cannot hide anything: no futures to compare
+						s.mergesAtLeaf++
+						continue
+					}
+					if hiddenOK && (e.fp == ch.fp || e.fps[ch.fp]) {
+						// same canonical key AND same cache fields as a history whose
+						// futures were already compared: identical concrete state
+						s.mergesSameConcrete++
+						continue
+					}
+					if e.fps == nil {
+						e.fps = map[string]bool{}
+					}
+					e.fps[ch.fp] = true
+					s.mergesChecked++
+				} else {
+					e := &entry{start: part[i].start, ops: ch.ops, fp: ch.fp, swapped: ch.swapped}
+					s.seen[ch.k] = e
+					ch.isNew, ch.rep = true, e
+					*next = append(*next, e)
+					if len(s.seen)%4099 == 0 {
+						samples.Add(map[string]interface{}{"powers": s.starts[e.start], "history": histString(decode(e.ops))})
+					}
+				}
+				todo = append(todo, work{i, j})
+			}
+		}
+		// phase 3 (parallel): state relations on new states, merge oracle on merged histories
+		s.tPhase[1] += time.Since(tp)
+		tp = time.Now()
+		core.Par(len(todo), func(t int) {
+			w := todo[t]
+			ch := &kids[w.i][w.j]
+			if ch.isNew {
+				ch.viols3 = c.stateChecks(s.starts[part[w.i].start], decode(ch.ops))
+			} else {
+				ch.viols3 = s.mergeCheck(ch.rep, part[w.i].start, ch.ops, ch.swapped)
+			}
+		})
+		s.tPhase[2] += time.Since(tp)
+		tp = time.Now()
+		for _, w := range todo {
+			ch := &kids[w.i][w.j]
+			if !ch.isNew && len(ch.viols3) > 0 {
+				s.mergeConflicts++
+			}
+			c.report(ch.viols3)
+		}
+		s.tPhase[3] += time.Since(tp)
+		return lt
+	}
+
 	for depth := 0; depth < maxDepth; depth++ {
 		alpha := alphaAt(depth)
 		var next []*entry
 		var lt int64
-		for lo := 0; lo < len(frontier); lo += chunk {
+		// nodes inside the stated bound first; nodes of the optional extension
+		// (one more operation for some set sizes, only if time remains) after them
+		var baseNodes, extNodes []*entry
+		for _, e := range frontier {
+			pw := s.starts[e.start]
+			switch {
+			case len(e.ops) < s.depthFor(pw):
+				baseNodes = append(baseNodes, e)
+			case len(e.ops) < s.extFor(pw):
+				extNodes = append(extNodes, e)
+			}
+		}
+		for lo := 0; lo < len(baseNodes); lo += chunk {
 			if time.Now().After(deadline) {
 				return depth, true
 			}
 			hi := lo + chunk
-			if hi > len(frontier) {
-				hi = len(frontier)
+			if hi > len(baseNodes) {
+				hi = len(baseNodes)
 			}
-			part := frontier[lo:hi]
-			// phase 1 (parallel): execute every enabled operation from every node
-			tp := time.Now()
-			kids := make([][]child, len(part))
-			core.Par(len(part), func(i int) {
-				e := part[i]
-				pw := s.starts[e.start]
-				if len(e.ops) >= s.depthFor(pw) {
-					return
-				}
-				base := decode(e.ops)
-				for _, x := range alpha {
-					hist := append(append(make([]opT, 0, len(base)+1), base...), allOps[x])
-					obs, fp, ok, v := c.historyChecks(pw, hist)
-					if !ok && len(v) == 0 {
-						continue // not enabled here
+			lt += processChunk(baseNodes[lo:hi], alpha, &next)
+		}
+		if len(extNodes) > 0 {
+			s.extNodes += int64(len(extNodes))
+			if time.Now().After(s.extStartBy) {
+				s.extSkipped = true
+			} else {
+				for lo := 0; lo < len(extNodes); lo += chunk {
+					if time.Now().After(deadline) {
+						s.extCapped = true
+						break
 					}
-					ops := append(append(make([]uint8, 0, len(e.ops)+1), e.ops...), x)
-					ch := child{ops: ops, viols: v}
-					if ok {
-						ch.k, ch.swapped = symCanon(obs)
-						ch.fp = fp.compose(ch.swapped)
-					} else {
-						ch.k = key{0xfe} // panicked: terminal
+					hi := lo + chunk
+					if hi > len(extNodes) {
+						hi = len(extNodes)
 					}
-					kids[i] = append(kids[i], ch)
-				}
-			})
-			// phase 2 (sequential, enumeration order): deduplicate
-			s.tPhase[0] += time.Since(tp)
-			tp = time.Now()
-			type work struct{ i, j int }
-			var todo []work
-			for i := range kids {
-				for j := range kids[i] {
-					ch := &kids[i][j]
-					lt++
-					c.report(ch.viols)
-					if ch.k == (key{0xfe}) {
-						continue
-					}
-					if e, dup := s.seen[ch.k]; dup {
-						ch.rep = e
-						s.merges++
-						if hiddenOK && (e.fp == ch.fp || e.fps[ch.fp]) {
-							// same canonical key AND same cache fields as a history whose
-							// futures were already compared: identical concrete state
-							s.mergesSameConcrete++
-							continue
-						}
-						if e.fps == nil {
-							e.fps = map[string]bool{}
-						}
-						e.fps[ch.fp] = true
-						s.mergesChecked++
-					} else {
-						e := &entry{start: part[i].start, ops: ch.ops, fp: ch.fp, swapped: ch.swapped}
-						s.seen[ch.k] = e
-						ch.isNew, ch.rep = true, e
-						next = append(next, e)
-						if len(s.seen)%4099 == 0 {
-							samples.Add(map[string]interface{}{"powers": s.starts[e.start], "history": histString(decode(e.ops))})
-						}
-					}
-					todo = append(todo, work{i, j})
+					n := processChunk(extNodes[lo:hi], alpha, &next)
+					lt += n
+					s.extTransitions += n
+					s.extNodesDone += int64(hi - lo)
 				}
 			}
-			// phase 3 (parallel): state relations on new states, merge oracle on merged histories
-			s.tPhase[1] += time.Since(tp)
-			tp = time.Now()
-			core.Par(len(todo), func(t int) {
-				w := todo[t]
-				ch := &kids[w.i][w.j]
-				if ch.isNew {
-					ch.viols3 = c.stateChecks(s.starts[part[w.i].start], decode(ch.ops))
-				} else {
-					ch.viols3 = s.mergeCheck(ch.rep, part[w.i].start, ch.ops, ch.swapped)
-				}
-			})
-			s.tPhase[2] += time.Since(tp)
-			tp = time.Now()
-			for _, w := range todo {
-				ch := &kids[w.i][w.j]
-				if !ch.isNew && len(ch.viols3) > 0 {
-					s.mergeConflicts++
-				}
-				c.report(ch.viols3)
-			}
-			s.tPhase[3] += time.Since(tp)
 		}
 		s.transitions += lt
 		if os.Getenv("VERIF_C16_DEBUG") != "" {
@@ -423,25 +470,37 @@ func main() {
 	// to the small sets and let the follow-up checks R2/R4/R5 look 3..2T
 	// operations past the end of every history)
 	depthByN := map[int]int{1: 4, 2: 4, 3: 3, 4: 3}
+	extByN := map[int]int{}
 	wideDepth := 1
 	if !run.Quick() {
-		depthByN = map[int]int{1: 6, 2: 6, 3: 4, 4: 4}
+		depthByN = map[int]int{1: 6, 2: 5, 3: 4, 4: 4}
+		// extension: sets of 2 members one operation further (another ~4M
+		// histories), started only if less than 40% of the time budget is used
+		extByN = map[int]int{2: 6}
 	}
 	if v := os.Getenv("VERIF_C16_DEPTHS"); v != "" { // development aid: "d1,d2,d3,d4,wide"
 		var d [5]int
 		if n, _ := fmt.Sscanf(v, "%d,%d,%d,%d,%d", &d[0], &d[1], &d[2], &d[3], &d[4]); n == 5 {
 			depthByN = map[int]int{1: d[0], 2: d[1], 3: d[2], 4: d[3]}
+			extByN = map[int]int{}
 			wideDepth = d[4]
 		}
 	}
 	maxDepth := 0
-	for _, d := range depthByN {
+	for n, d := range depthByN {
+		if extByN[n] < d {
+			extByN[n] = d
+		}
+		if extByN[n] > maxDepth {
+			maxDepth = extByN[n]
+		}
 		if d > maxDepth {
 			maxDepth = d
 		}
 	}
 	s := &search{c: c, starts: startSets(), mergeA: mergeA, seen: map[key]*entry{},
-		depthFor: func(pw []int64) int { return depthByN[len(pw)] }}
+		depthFor: func(pw []int64) int { return depthByN[len(pw)] },
+		extFor:   func(pw []int64) int { return extByN[len(pw)] }}
 
 	if run.ReplayPath != "" {
 		var k kaseT
@@ -486,6 +545,7 @@ func main() {
 	samples := core.NewSampler(6, run.Seed)
 	samples.Add(map[string]interface{}{"powers": s.starts[len(s.starts)/2], "history": "[]"})
 	t0 := time.Now()
+	s.extStartBy = t0.Add(budget * 2 / 5)
 	done, capped := s.run(maxDepth, func(level int) []uint8 {
 		if level < wideDepth {
 			return wide
@@ -509,6 +569,11 @@ func main() {
 		sort.Strings(o)
 		return o
 	}
+	extension := map[string]interface{}{"depth_by_set_size": extByN, "nodes": s.extNodes, "nodes_expanded": s.extNodesDone, "transitions": s.extTransitions,
+		"skipped_for_time": s.extSkipped, "stopped_by_time_cap": s.extCapped, "complete": s.extNodes > 0 && s.extNodesDone == s.extNodes}
+	if s.extSkipped || s.extCapped {
+		run.Notes = append(run.Notes, fmt.Sprintf("the optional extension (sets of 2 members to length 6) was not completed within the time budget: %d of %d nodes expanded; the stated bounds depth_by_set_size are complete", s.extNodesDone, s.extNodes))
+	}
 	if capped {
 		run.Notes = append(run.Notes, fmt.Sprintf("time cap of %v reached while expanding depth %d (histories of length %d): all histories of length <= %d are complete, longer ones only partly", budget, done, done+1, done))
 	}
@@ -520,17 +585,19 @@ func main() {
 		"traces_validated_against_impl": s.transitions + int64(len(s.starts)),
 		"evaluations":                   execs,
 		"distinct_nontrivial":           c.seqs.Len(),
-		"rule": "breadth-first over ALL operation histories of length <= depth_by_set_size from every start set (powers in {1,2,3,5}^n, n<=3: all 84; n=4: 6 vectors incl. all-equal, pairwise-equal and one ~2^60); " +
+		"rule": "breadth-first over ALL operation histories of length <= depth_by_set_size[n] from every start set of n members (plus, time permitting, the extension_beyond_bounds, reported separately and not part of 'exhaustive') (powers in {1,2,3,5}^n, n<=3: all 84; n=4: 6 vectors incl. all-equal, pairwise-equal and one ~2^60); " +
 			"the first wide_depth operations of a history range over the wide alphabet (IncrementAccum 1|2|3, Proposer, Hash, save/load through state.State, Add of a new member below/between/above the existing ones, Add of an existing address, Update of every position to every other power in {1,2,3,5}, Remove of every position, Copy; each addressed to either of two live copies), later operations over the core alphabet (IncrementAccum 1|2|3, save/load, Add in the middle, Update first member one power step up / last member one step down, Remove first/last, Copy; either copy); " +
-			"every history is replayed on a fresh real ValidatorSet and observed only at its end; states = distinct canonical keys (members+powers+accums in order, Proposer().Address, TotalVotingPower() of both copies, modulo exchanging the copies); a history reaching a known key is not expanded again, instead its next-operation observations are compared with the representative's (merge oracle) unless its complete concrete state incl. cache fields equals one already compared; " +
+			"every history is replayed on a fresh real ValidatorSet and observed only at its end; states = distinct canonical keys (members+powers+accums in order, Proposer().Address, TotalVotingPower() of both copies, modulo exchanging the copies); a history reaching a known key is not expanded again, instead its next-operation observations are compared with the representative's (merge oracle) unless its complete concrete state incl. cache fields equals one already compared or it has maximal length (never expanded anyway); " +
 			"per history: R3 (lineage of each copy alone), R4 (same history without save/load steps), membership reference; per state: R1 (second run, members offered in opposite order, incl. Hash), R6, R2 (every composition of rounds 2..max_round via Copy+IncrementAccum), R5 (2T single selections, all T+1 windows); " +
 			"transitions = enabled (state, operation) pairs executed; traces_validated_against_impl = enumerated histories (start sets + transitions), every one executed on the real code; evaluations = executions of a history on the real code (main runs, comparison partners, follow-ups of the merge oracle); distinct_nontrivial = distinct (member list, selection sequence) pairs seen in R5",
 		"exhaustive":                      !capped,
 		"bounds":                          map[string]interface{}{"depth_by_set_size": depthByN, "wide_depth": wideDepth, "depth_completed": done, "max_round_R2": c.maxRound, "fairness_total_power_cap": c.fairCap, "start_sets": len(s.starts), "wide_alphabet": len(wide), "core_alphabet": len(coreA), "merge_alphabet": len(mergeA), "time_cap_s": budget.Seconds()},
+		"extension_beyond_bounds":         extension,
 		"levels":                          levels,
 		"merges":                          s.merges,
 		"merges_futures_compared":         s.mergesChecked,
 		"merges_identical_concrete_state": s.mergesSameConcrete,
+		"merges_of_maximal_histories":     s.mergesAtLeaf,
 		"concrete_state_fingerprint":      hiddenOK,
 		"merge_conflicts":                 s.mergeConflicts,
 		"derived_history_memo_hits":       c.nMemoHit,
